@@ -12,6 +12,12 @@ CHECKS = {
          "Trusts the reference varint codec (self-checked at setup); int64/float64 are covered on boundary sets only.", "DESIGN.md §4 C17"),
 }
 CHECKS.update({
+ "C07": (True, "fault_enumeration", "exhaustive single-bit damage enumeration over a reference-written file family, plus callback-failure points and metadata variants",
+         "Every bit of every sync marker, snappy CRC, compressed payload byte and of the magic is flipped, one at a time, in every file of a family (3 schemas x 3 codecs x every block composition of <=3 records) written by an independent reference writer; the callback is failed at every record index; metadata variants cover missing schema / absent and unknown codec. The oracle is the reference parser and the reference decompressors. The corruption space of a small file is finite, so it is enumerated completely rather than sampled.",
+         "Payload flips the reference decompressor accepts are counted but not judged (the statement only covers rejected blocks).", "DESIGN.md §4 C07"),
+ "C08": (True, "fault_enumeration", "exhaustive crash-point enumeration: every cut position of every family file x reader chunking behaviour",
+         "Every prefix (cut position 0..len) of every file of the reference-written family is read under three reader behaviours (full reads, 1-byte reads, data together with EOF); delivered records must be exactly those of the blocks whose payload is completely present and success is allowed only at the end of the header or of a block, as computed from the reference layout. Crash points of a short file are finite and are all visited.",
+         "Family of small files (<=3 records, 5 thorough; 1..200-byte records; one 70-record block); reference layout defines completeness.", "DESIGN.md §4 C08"),
  "C09": (True, "model_checking", "explicit-state BFS over encoder call histories on the real Encoder[T], lock-step reference model, all traces replayed on the implementation",
          "Explicit-state search over every encode/flush history up to a depth bound (6 quick / 8 thorough; 8/12 for the zero-byte record), for 9 block sizes x 3 codecs, executed on the real Encoder[T]; after every call the complete output is parsed by an independent container parser and compared with a lock-step model (list of pending records). The property quantifies over call histories of a small state machine, which is exactly what bounded explicit-state search decides.",
          "Record sizes from a 4-element alphabet; depth bound; state canonicalisation argument in the evidence assumptions; reference parser/decompressors trusted.", "DESIGN.md §4 C09"),
